@@ -107,6 +107,7 @@ type memDCS struct {
 	faults    []*memFault
 	silent    bool // do not record (setup phase)
 	onLock    func() // monitor hook: called at every AcquireLock
+	onGet     func(path string) // scenario hook: called (unlocked) before every recorded Get
 }
 
 func newMemDCS(w *vk.World, caller string) *memDCS {
@@ -411,6 +412,9 @@ func (d *memDCS) Set(path string, value any) error             { return d.put("s
 func (d *memDCS) SetEphemeral(path string, value any) error    { return d.put("seteph", path, value, false, true) }
 
 func (d *memDCS) Get(path string, dest any) error {
+	if d.onGet != nil && !d.silent {
+		d.onGet(path)
+	}
 	d.mu.Lock()
 	var rerr error
 	var b []byte
